@@ -74,10 +74,11 @@ func init() {
 func init() {
 	checks = append(checks, &CheckSpec{
 		Prop:    "C11",
-		Harness: []string{"c06_expr.go", "c05_fixpoint.go", "c11_limits.go"},
+		Harness: []string{"c06_expr.go", "c05_fixpoint.go", "c11_limits.go", "c01_chain.go", "authz_gen.go", "c11_authz.go"},
 		Entries: []EntrySpec{
 			{Pkg: "datalog", Func: "VerifC11Limits", Quick: p("depth", 2), Thorough: p("depth", 3), Covers: []string{"returned", "success", "error"}},
 			{Pkg: "datalog", Func: "VerifC11Outcomes", Quick: p(), Thorough: p(), Covers: []string{"returned", "invalid-rule", "expr-error"}},
+			{Pkg: "biscuit", Func: "VerifC11AuthorizerLimits", Quick: p(), Thorough: p(), Covers: []string{"authorized", "refused", "allowed"}},
 		},
 		Assumptions: append([]string{
 			"limit direction of the claim uses a chain program of known depth d <= 2 (quick) / 3 (thorough) with symbolic names/constant: fixpoint has d+1 facts and needs d+1 iterations; maxFacts in [0,1000] and maxIterations in [0,100] fully symbolic",
